@@ -410,9 +410,9 @@ func (c02) Plan(tier string) []fw.Unit {
 	for s := 0; s < 8; s++ {
 		us = append(us, fw.Unit{Check: "C02", Kind: "idle", Tier: tier, Spec: fw.Spec(enumSpec{Shard: s, Shards: 8})})
 	}
-	bound := 1
+	bound := 2 // (raised from 1: a lock-upgrade race in Trigger needs the clock to fire a due timer and one preemption)
 	if tier == "thorough" {
-		bound = 2
+		bound = 3
 	}
 	for i, sc := range c02Scenarios(tier) {
 		us = append(us, fw.Unit{Check: "C02", Kind: "sched", Tier: tier, Spec: fw.Spec(schedSpec{Scn: i, Name: sc.Name, Items: []explore.Item{{}}, Bound: bound, Budget: 20000})})
